@@ -1,9 +1,607 @@
-/- C09 - model (stub: not built yet) -/
+/-
+C09 - model of trust policy document validation:
+`OCIDocument.Validate` (verifier/trustpolicy/oci.go), `BlobDocument.Validate` (blob.go),
+`validatePolicyCore`, `GetVerificationLevel`, `validateTrustStore`, `validateTrustedIdentities`,
+`validateOverlappingDNs` (trustpolicy.go), `pkix.ParseDistinguishedName`, `pkix.IsSubsetDN`,
+`file.IsValidFileName`, `validateRegistryScopes`, `validateRegistryScopeFormat`.
+
+The checks are written in the order of the code. Tables and constants come from
+`Generated/Levels.lean` and `Generated/C09.lean`; the four constants the property statement
+names and the three regular expressions are literals here, proved equal to the regenerated
+source constants / expression texts in `Props/C09.lean`.
+go-ldap's `ParseDN` is a parameter: every identity carries what `ldap.ParseDN` answered for the
+text after its first ':' (the harness asks the real library).
+-/
 import NotationModel.Basic
+import NotationModel.Generated.Levels
+import NotationModel.Generated.C09
 open Lean
 
 namespace NotationModel.C09
 
-def judge (_ : Json) : Except String Json := .error "C09: model not built yet"
+/-! ## regular expressions: abstract syntax, rendering to Go syntax, derivative matcher -/
+
+inductive Item
+  | ch (c : Char)            -- a single character inside a class
+  | rg (lo hi : Char)        -- a range lo-hi inside a class
+  deriving DecidableEq, Repr
+
+inductive Rx
+  | fail                     -- matches nothing (only produced by derivatives)
+  | eps                      -- matches the empty text (only produced by derivatives)
+  | lit (c : Char)
+  | cls (items : List Item)  -- [items]
+  | seq (a b : Rx)
+  | alt (a b : Rx)           -- a|b
+  | star (r : Rx)
+  | plus (r : Rx)
+  | opt (r : Rx)
+  | grp (r : Rx)             -- (?:r)
+  deriving DecidableEq, Repr
+
+def Item.has (c : Char) : Item → Bool
+  | .ch d => c == d
+  | .rg lo hi => decide (lo ≤ c) && decide (c ≤ hi)
+
+def Item.render : Item → List Char
+  | .ch c => [c]
+  | .rg lo hi => [lo, '-', hi]
+
+/-- the Go (RE2) text of an expression -/
+def Rx.render : Rx → List Char
+  | .fail => []
+  | .eps => []
+  | .lit c => if c == '.' then ['\\', '.'] else [c]
+  | .cls items => '[' :: (items.flatMap Item.render ++ [']'])
+  | .seq a b => a.render ++ b.render
+  | .alt a b => a.render ++ '|' :: b.render
+  | .star r => r.render ++ ['*']
+  | .plus r => r.render ++ ['+']
+  | .opt r => r.render ++ ['?']
+  | .grp r => ['(', '?', ':'] ++ r.render ++ [')']
+
+/-- `^r$` -/
+def Rx.anchored (r : Rx) : List Char := '^' :: (r.render ++ ['$'])
+
+def Rx.isAlt : Rx → Bool
+  | .alt _ _ => true
+  | _ => false
+
+def Rx.atomic : Rx → Bool
+  | .lit _ => true
+  | .cls _ => true
+  | .grp _ => true
+  | _ => false
+
+/-- the rendering of the tree parses back to the same tree under Go's precedences: repetition
+only on atoms, alternation only directly inside a group, no derivative-only nodes -/
+def Rx.wf : Rx → Bool
+  | .fail => false
+  | .eps => false
+  | .lit _ => true
+  | .cls items => !items.isEmpty
+  | .seq a b => !a.isAlt && !b.isAlt && a.wf && b.wf
+  | .alt a b => a.wf && b.wf
+  | .star r => r.atomic && r.wf
+  | .plus r => r.atomic && r.wf
+  | .opt r => r.atomic && r.wf
+  | .grp r => r.wf
+
+def Rx.nullable : Rx → Bool
+  | .fail => false
+  | .eps => true
+  | .lit _ => false
+  | .cls _ => false
+  | .seq a b => a.nullable && b.nullable
+  | .alt a b => a.nullable || b.nullable
+  | .star _ => true
+  | .plus r => r.nullable
+  | .opt _ => true
+  | .grp r => r.nullable
+
+def mkSeq (a b : Rx) : Rx :=
+  if a = .fail ∨ b = .fail then .fail
+  else if a = .eps then b
+  else if b = .eps then a
+  else .seq a b
+
+def mkAlt (a b : Rx) : Rx :=
+  if a = .fail then b
+  else if b = .fail then a
+  else if a = b then a
+  else .alt a b
+
+/-- Brzozowski derivative -/
+def Rx.deriv (c : Char) : Rx → Rx
+  | .fail => .fail
+  | .eps => .fail
+  | .lit d => if c == d then .eps else .fail
+  | .cls items => if items.any (·.has c) then .eps else .fail
+  | .seq a b =>
+    if a.nullable then mkAlt (mkSeq (a.deriv c) b) (b.deriv c) else mkSeq (a.deriv c) b
+  | .alt a b => mkAlt (a.deriv c) (b.deriv c)
+  | .star r => mkSeq (r.deriv c) (.star r)
+  | .plus r => mkSeq (r.deriv c) (.star r)
+  | .opt r => r.deriv c
+  | .grp r => r.deriv c
+
+/-- does the whole text belong to the language of `r` (Go: `^r$` with `MatchString`) -/
+def Rx.matches : Rx → List Char → Bool
+  | r, [] => r.nullable
+  | r, c :: cs => (r.deriv c).matches cs
+
+/-! ### the three expressions of the code (pinned to the source texts in `Props/C09.lean`) -/
+
+def alnum : Rx := .cls [.rg 'a' 'z', .rg 'A' 'Z', .rg '0' '9']
+def alnumDash : Rx := .cls [.rg 'a' 'z', .rg 'A' 'Z', .rg '0' '9', .ch '-']
+def domainLabel : Rx := .grp (.alt alnum (.seq alnum (.seq (.star alnumDash) alnum)))
+
+/-- `domainRegexp` of validateRegistryScopeFormat -/
+def domainRx : Rx :=
+  .seq domainLabel
+    (.seq (.opt (.grp (.plus (.grp (.seq (.lit '.') domainLabel)))))
+          (.opt (.grp (.seq (.lit ':') (.plus (.cls [.rg '0' '9']))))))
+
+def lowerNum : Rx := .cls [.rg 'a' 'z', .rg '0' '9']
+def repoSeparator : Rx :=
+  .grp (.alt (.cls [.ch '.', .ch '_']) (.alt (.seq (.lit '_') (.lit '_')) (.star (.cls [.ch '-']))))
+def repoComponent : Rx :=
+  .seq (.plus lowerNum) (.opt (.grp (.plus (.grp (.seq repoSeparator (.plus lowerNum))))))
+
+/-- `repositoryRegexp` of validateRegistryScopeFormat -/
+def repositoryRx : Rx :=
+  .seq repoComponent (.opt (.grp (.plus (.grp (.seq (.lit '/') repoComponent)))))
+
+/-- the expression of `file.IsValidFileName` -/
+def fileNameRx : Rx :=
+  .plus (.cls [.rg 'a' 'z', .rg 'A' 'Z', .rg '0' '9', .ch '_', .ch '.', .ch '-'])
+
+/-! ## constants the property statement names
+
+The model and the rule list use these literals; `Props/C09.lean` proves that the regenerated
+source constants (`Facts.wildcard`, `Facts.x509Subject`, `Facts.mandatoryDNFields`,
+`Facts.fileNameRefused`) are equal to them, so a changed source constant breaks that theorem and
+shows up as a disagreement with a concrete document. -/
+
+namespace Spec
+/-- the wildcard identity / scope (`trustpolicy.Wildcard`) -/
+def wildcard : Text := ['*']
+/-- the identity prefix notation understands natively (`trustpolicy.X509Subject`) -/
+def x509Subject : Text := ['x', '5', '0', '9', '.', 's', 'u', 'b', 'j', 'e', 'c', 't']
+/-- attributes every x509.subject identity must contain (`mandatoryFields` of pkix) -/
+def mandatoryDNFields : List String := ["C", "ST", "O"]
+/-- directory references, never file names (`IsValidFileName`) -/
+def fileNameRefused : List Text := [['.'], ['.', '.']]
+end Spec
+
+/-! ## text helpers -/
+
+/-- `strings.Cut(s, sep)` for a one-character separator -/
+def cut (sep : Char) : Text → Option (Text × Text)
+  | [] => none
+  | c :: cs => if c == sep then some ([], cs) else (cut sep cs).map (fun p => (c :: p.1, p.2))
+
+/-- `strings.Contains(s, pat)` -/
+def hasInfix (pat : Text) : Text → Bool
+  | [] => pat.isEmpty
+  | c :: cs => pat.isPrefixOf (c :: cs) || hasInfix pat cs
+
+/-- `file.IsValidFileName` -/
+def isValidFileName (n : Text) : Bool :=
+  if Spec.fileNameRefused.contains n then false else fileNameRx.matches n
+
+/-- `validateRegistryScopeFormat` (true = no error) -/
+def validScopeFormat (s : Text) : Bool :=
+  if s.length > 1 && s.contains '*' then false
+  else match cut '/' s with
+    | none => false
+    | some (d, r) => !(d.isEmpty || r.isEmpty || !domainRx.matches d || !repositoryRx.matches r)
+
+/-! ## documents -/
+
+structure KV where
+  key : String
+  val : String
+  deriving DecidableEq, Repr, FromJson, ToJson
+
+/-- one attributeTypeAndValue as returned by `ldap.ParseDN` -/
+structure Attr where
+  typ : String
+  val : String
+  deriving DecidableEq, Repr, FromJson, ToJson
+
+structure Identity where
+  raw : Text                          -- the trustedIdentities entry
+  dn : Option (List (List Attr))      -- `ldap.ParseDN` of the text after the first ':' (RDNs); none = error / no ':'
+  deriving DecidableEq, Repr, FromJson, ToJson
+
+structure Statement where
+  name : String
+  level : String
+  override : List KV                  -- the Override map (keys distinct), any order
+  verifyTimestamp : String
+  trustStores : List Text
+  identities : List Identity
+  scopes : List Text                  -- registryScopes (OCI documents only)
+  isGlobal : Bool                     -- globalPolicy (blob documents only)
+  deriving DecidableEq, Repr, FromJson, ToJson
+
+structure Doc where
+  version : String
+  statements : List Statement
+  deriving DecidableEq, Repr, FromJson, ToJson
+
+inductive Kind | oci | blob
+  deriving DecidableEq, Repr
+
+/-! ## GetVerificationLevel -/
+
+abbrev Enf := List (String × String)
+
+/-- the loop over `VerificationLevels` (no `break`: the last match wins) -/
+def baseLevel (lvl : String) : Option (String × Enf) :=
+  Facts.levels.foldl (fun acc l => if l.1 == lvl then some l else acc) none
+
+/-- `m[k] = v` on an association list -/
+def setKey (k v : String) : Enf → Enf
+  | [] => [(k, v)]
+  | (k', v') :: r => if k' == k then (k, v) :: r else (k', v') :: setKey k v r
+
+/-- body of the loop over the Override map -/
+def applyOverride (kv : KV) (e : Enf) : Except String Enf :=
+  if (Facts.validationTypes.find? (· == kv.key)).getD "" == "" then .error "verification type is not supported"
+  else if (Facts.validationActions.find? (· == kv.val)).getD "" == "" then .error "verification action is not supported"
+  else if kv.key == Facts.typeIntegrity then .error "integrity verification can not be overridden"
+  else if kv.key != Facts.typeRevocation && kv.val == Facts.actionSkip then .error "verification can not be skipped"
+  else .ok (setKey kv.key kv.val e)
+
+def applyOverrides : List KV → Enf → Except String Enf
+  | [], e => .ok e
+  | kv :: r, e =>
+    match applyOverride kv e with
+    | .error m => .error m
+    | .ok e' => applyOverrides r e'
+
+/-- `SignatureVerification.GetVerificationLevel`: (name, enforcement) -/
+def effective (lvl : String) (ov : List KV) : Except String (String × Enf) :=
+  if lvl == "" then .error "level is empty or missing"
+  else match baseLevel lvl with
+    | none => .error "invalid signature verification level"
+    | some b =>
+      if ov.isEmpty then .ok b
+      else if b.1 == Facts.levelSkipName then .error "skip can't be used to customize signature verification"
+      else match applyOverrides ov b.2 with
+        | .error m => .error m
+        | .ok e => .ok (Facts.customLevelName, e)
+
+/-! ## validateTrustStore -/
+
+def validateTrustStore : List Text → Except String Unit
+  | [] => .ok ()
+  | t :: r =>
+    match cut ':' t with
+    | none => .error "malformed trust store value"
+    | some (ty, nm) =>
+      if !Facts.trustStoreTypes.contains ty then .error "unsupported trust store type"
+      else if !isValidFileName nm then .error "unsupported trust store name"
+      else validateTrustStore r
+
+/-! ## pkix.ParseDistinguishedName, pkix.IsSubsetDN -/
+
+abbrev DNMap := List (String × String)
+
+def aliasType (t : String) : String := if t == Facts.dnAliasFrom then Facts.dnAliasTo else t
+
+def dnAttr (m : DNMap) (a : Attr) : Except String DNMap :=
+  if (m.lookup (aliasType a.typ)).isSome then .error "duplicate RDN attribute"
+  else .ok (m ++ [(aliasType a.typ, a.val)])
+
+def dnAttrs : List Attr → DNMap → Except String DNMap
+  | [], m => .ok m
+  | a :: r, m =>
+    match dnAttr m a with
+    | .error e => .error e
+    | .ok m' => dnAttrs r m'
+
+def dnRdns : List (List Attr) → DNMap → Except String DNMap
+  | [], m => .ok m
+  | rdn :: r, m =>
+    if rdn.length > 1 then .error "multi-valued RDN"
+    else match dnAttrs rdn m with
+      | .error e => .error e
+      | .ok m' => dnRdns r m'
+
+def hasMandatory (m : DNMap) : Bool :=
+  Spec.mandatoryDNFields.all (fun f => (m.lookup f).getD "" != "")
+
+def parseDN (value : Text) (ldap : Option (List (List Attr))) : Except String DNMap :=
+  if hasInfix Facts.dnRefusedInfix value then .error "=# is not supported"
+  else match ldap with
+    | none => .error "ldap.ParseDN failed"
+    | some rdns =>
+      match dnRdns rdns [] with
+      | .error e => .error e
+      | .ok m => if hasMandatory m then .ok m else .error "no mandatory RDN attribute"
+
+/-- `pkix.IsSubsetDN` (presence-checking lookups) -/
+def isSubsetDN (m1 m2 : DNMap) : Bool :=
+  m1.all (fun kv => m2.lookup kv.1 == some kv.2)
+
+/-- `validateOverlappingDNs` (true = an error is returned) -/
+def overlapping (ms : List DNMap) : Bool :=
+  (List.range ms.length).any fun i => (List.range ms.length).any fun j =>
+    i != j && isSubsetDN (ms[i]?.getD []) (ms[j]?.getD [])
+
+/-! ## validateTrustedIdentities -/
+
+def collectDNs : List Identity → List DNMap → Except String (List DNMap)
+  | [], acc => .ok acc
+  | id :: r, acc =>
+    if id.raw.isEmpty then .error "empty trusted identity"
+    else if id.raw == Spec.wildcard then collectDNs r acc
+    else match cut ':' id.raw with
+      | none => .error "trusted identity missing separator"
+      | some (pre, value) =>
+        if pre == Spec.x509Subject then
+          if value.isEmpty then .error "trusted identity without an identity value"
+          else match parseDN value id.dn with
+            | .error e => .error e
+            | .ok m => collectDNs r (acc ++ [m])
+        else collectDNs r acc
+
+def validateTrustedIdentities (ids : List Identity) : Except String Unit :=
+  if ids.length > 1 && (ids.map (·.raw)).contains Spec.wildcard then .error "wildcard identity with other values"
+  else match collectDNs ids [] with
+    | .error e => .error e
+    | .ok ms => if overlapping ms then .error "overlapping x509 trustedIdentities" else .ok ()
+
+/-! ## validatePolicyCore -/
+
+def validatePolicyCore (s : Statement) : Except String Unit :=
+  if s.name == "" then .error "statement is missing a name"
+  else match effective s.level s.override with
+    | .error e => .error e
+    | .ok lv =>
+      if s.verifyTimestamp != "" && s.verifyTimestamp != Facts.optionAlways &&
+          s.verifyTimestamp != Facts.optionAfterCertExpiry then .error "invalid verifyTimestamp"
+      else if lv.1 == Facts.policyCoreSkipLiteral then
+        if s.trustStores.length > 0 || s.identities.length > 0 then .error "skip with trust stores and/or identities"
+        else .ok ()
+      else if s.trustStores.length == 0 || s.identities.length == 0 then .error "missing trust stores or identities"
+      else match validateTrustStore s.trustStores with
+        | .error e => .error e
+        | .ok _ => validateTrustedIdentities s.identities
+
+/-! ## OCIDocument.Validate -/
+
+def validateStatementsOCI : List Statement → List String → Except String Unit
+  | [], _ => .ok ()
+  | s :: r, seen =>
+    if seen.contains s.name then .error "statement names must be unique"
+    else match validatePolicyCore s with
+      | .error e => .error e
+      | .ok _ => validateStatementsOCI r (s.name :: seen)
+
+def checkScopes : List Text → Except String Unit
+  | [] => .ok ()
+  | sc :: r =>
+    if sc != Spec.wildcard && !validScopeFormat sc then .error "registry scope is not valid"
+    else checkScopes r
+
+/-- first loop of validateRegistryScopes; the result lists every counted scope -/
+def scanScopes : List Statement → List Text → Except String (List Text)
+  | [], acc => .ok acc
+  | s :: r, acc =>
+    if s.scopes.length == 0 then .error "zero registry scopes"
+    else if s.scopes.length > 1 && s.scopes.contains Spec.wildcard then .error "wildcard scope with other values"
+    else match checkScopes s.scopes with
+      | .error e => .error e
+      | .ok _ => scanScopes r (acc ++ s.scopes)
+
+def validateRegistryScopes (ss : List Statement) : Except String Unit :=
+  match scanScopes ss [] with
+  | .error e => .error e
+  | .ok all => if all.any (fun k => all.count k > 1) then .error "scope present in multiple statements" else .ok ()
+
+def validateOCI (d : Doc) : Except String Unit :=
+  if d.version == "" then .error "empty version"
+  else if !Facts.supportedOCIPolicyVersions.contains d.version then .error "unsupported version"
+  else if d.statements.length == 0 then .error "zero trust policy statements"
+  else match validateStatementsOCI d.statements [] with
+    | .error e => .error e
+    | .ok _ => validateRegistryScopes d.statements
+
+/-! ## BlobDocument.Validate -/
+
+def validateStatementsBlob : List Statement → List String → Bool → Except String Unit
+  | [], _, _ => .ok ()
+  | s :: r, seen, found =>
+    if seen.contains s.name then .error "statement names must be unique"
+    else match validatePolicyCore s with
+      | .error e => .error e
+      | .ok _ =>
+        if s.isGlobal then
+          if found then .error "multiple global statements"
+          else if s.level == Facts.levelSkipName then .error "global statement cannot be skip"
+          else validateStatementsBlob r (s.name :: seen) true
+        else validateStatementsBlob r (s.name :: seen) found
+
+def validateBlob (d : Doc) : Except String Unit :=
+  if d.version == "" then .error "empty version"
+  else if !Facts.supportedBlobPolicyVersions.contains d.version then .error "unsupported version"
+  else if d.statements.length == 0 then .error "zero trust policy statements"
+  else validateStatementsBlob d.statements [] false
+
+def validate : Kind → Doc → Except String Unit
+  | .oci, d => validateOCI d
+  | .blob, d => validateBlob d
+
+def isOk {ε α : Type} : Except ε α → Bool
+  | .ok _ => true
+  | .error _ => false
+
+/-! ## the property's rule list, written declaratively (no order of checks) -/
+
+def supportedVersions : Kind → List String
+  | .oci => Facts.supportedOCIPolicyVersions
+  | .blob => Facts.supportedBlobPolicyVersions
+
+def IsSkip (s : Statement) : Prop := s.level = Facts.levelSkipName
+
+/-- an override entry: known type, known action, never integrity, skip only for revocation -/
+def OverrideOk (kv : KV) : Prop :=
+  kv.key ∈ Facts.validationTypes ∧ kv.val ∈ Facts.validationActions ∧
+  kv.key ≠ Facts.typeIntegrity ∧ (kv.val = Facts.actionSkip → kv.key = Facts.typeRevocation)
+
+/-- `type:name` with a known store type and a file-name-safe name -/
+def storeOk (t : Text) : Bool :=
+  match cut ':' t with
+  | some (ty, nm) => Facts.trustStoreTypes.contains ty && isValidFileName nm
+  | none => false
+
+def idPrefix (id : Identity) : Option Text := (cut ':' id.raw).map (·.1)
+def idValue (id : Identity) : Text := ((cut ':' id.raw).map (·.2)).getD []
+def isX509 (id : Identity) : Bool := idPrefix id == some Spec.x509Subject
+def rdnsOf (id : Identity) : List (List Attr) := id.dn.getD []
+
+/-- the attribute list of a parsed name, with the state alias applied -/
+def dnPairs (rdns : List (List Attr)) : DNMap := rdns.flatten.map (fun a => (aliasType a.typ, a.val))
+def dnMapOf (id : Identity) : DNMap := dnPairs (rdnsOf id)
+
+/-- an x509.subject identity parses and contains the mandatory attributes -/
+def DNOk (id : Identity) : Prop :=
+  idValue id ≠ [] ∧ hasInfix Facts.dnRefusedInfix (idValue id) = false ∧
+  id.dn.isSome = true ∧
+  (∀ r ∈ rdnsOf id, r.length ≤ 1) ∧
+  ((dnMapOf id).map (·.1)).Nodup ∧
+  (∀ f ∈ Spec.mandatoryDNFields, ∃ v ∈ (dnMapOf id).map (·.2), (f, v) ∈ dnMapOf id ∧ v ≠ "")
+
+/-- no distinguished name is a subset of the one at another position -/
+def NoOverlap (ms : List DNMap) : Prop :=
+  ∀ i < ms.length, ∀ j < ms.length, i ≠ j → isSubsetDN (ms[i]?.getD []) (ms[j]?.getD []) = false
+
+def IdentitiesOk (ids : List Identity) : Prop :=
+  (Spec.wildcard ∈ ids.map (·.raw) → ids.length ≤ 1) ∧
+  (∀ id ∈ ids, id.raw ≠ [] ∧ (id.raw ≠ Spec.wildcard → (cut ':' id.raw).isSome = true) ∧
+      (isX509 id = true → DNOk id)) ∧
+  NoOverlap ((ids.filter isX509).map dnMapOf)
+
+def StatementOk (s : Statement) : Prop :=
+  s.name ≠ "" ∧
+  s.level ∈ Facts.levels.map (·.1) ∧
+  (IsSkip s → s.override = []) ∧
+  (∀ kv ∈ s.override, OverrideOk kv) ∧
+  (s.verifyTimestamp = "" ∨ s.verifyTimestamp = Facts.optionAlways ∨
+    s.verifyTimestamp = Facts.optionAfterCertExpiry) ∧
+  (IsSkip s → s.trustStores = [] ∧ s.identities = []) ∧
+  (¬ IsSkip s → s.trustStores ≠ [] ∧ s.identities ≠ [] ∧
+    (∀ t ∈ s.trustStores, storeOk t = true) ∧ IdentitiesOk s.identities)
+
+/-- OCI: every statement has scopes, the wildcard stands alone, every other scope is a valid
+repository path, and no scope occurs twice in the whole document -/
+def ScopesOk (d : Doc) : Prop :=
+  (∀ s ∈ d.statements, s.scopes ≠ [] ∧ (Spec.wildcard ∈ s.scopes → s.scopes.length ≤ 1) ∧
+      ∀ sc ∈ s.scopes, sc = Spec.wildcard ∨ validScopeFormat sc = true) ∧
+  (d.statements.flatMap (·.scopes)).Nodup
+
+/-- blob: at most one global statement, and it is not skip -/
+def GlobalOk (d : Doc) : Prop :=
+  (d.statements.filter (·.isGlobal)).length ≤ 1 ∧
+  ∀ s ∈ d.statements, s.isGlobal = true → ¬ IsSkip s
+
+def WellFormed (k : Kind) (d : Doc) : Prop :=
+  d.version ∈ supportedVersions k ∧
+  d.statements ≠ [] ∧
+  (d.statements.map (·.name)).Nodup ∧
+  (∀ s ∈ d.statements, StatementOk s) ∧
+  (k = .oci → ScopesOk d) ∧ (k = .blob → GlobalOk d)
+
+instance (s : Statement) : Decidable (IsSkip s) := by unfold IsSkip; infer_instance
+instance (kv : KV) : Decidable (OverrideOk kv) := by unfold OverrideOk; infer_instance
+instance (id : Identity) : Decidable (DNOk id) := by unfold DNOk; infer_instance
+instance (ms : List DNMap) : Decidable (NoOverlap ms) := by unfold NoOverlap; infer_instance
+instance (ids : List Identity) : Decidable (IdentitiesOk ids) := by unfold IdentitiesOk; infer_instance
+instance (s : Statement) : Decidable (StatementOk s) := by unfold StatementOk; infer_instance
+instance (d : Doc) : Decidable (ScopesOk d) := by unfold ScopesOk; infer_instance
+instance (d : Doc) : Decidable (GlobalOk d) := by unfold GlobalOk; infer_instance
+instance (k : Kind) (d : Doc) : Decidable (WellFormed k d) := by unfold WellFormed; infer_instance
+
+/-! ## observation -/
+
+structure Input where
+  kind : String     -- "oci" | "blob" | "regex"
+  doc : Doc         -- kinds oci, blob
+  rx : String       -- kind regex: "fileName" | "domain" | "repository" | "scope"
+  text : Text       -- kind regex: the candidate text
+  deriving Repr, FromJson, ToJson
+
+structure Obs where
+  okStruct : Bool               -- Validate() of the document built through the struct API returned nil
+  okJson : Bool                 -- … of the document marshalled to JSON and decoded again
+  okVerifier : Bool             -- verifier.NewVerifierWithOptions accepted the document
+  levels : List (List KV)       -- accepted documents: per statement the enforcement map of
+                                -- GetVerificationLevel, sorted by type
+  deriving DecidableEq, Repr, FromJson, ToJson
+
+def kindOf (k : String) : Option Kind :=
+  if k == "oci" then some .oci else if k == "blob" then some .blob else none
+
+/-- what the Go side is asked about a text in the `regex` cases -/
+def recognise (rx : String) (t : Text) : Bool :=
+  if rx == "fileName" then isValidFileName t
+  else if rx == "domain" then domainRx.matches t
+  else if rx == "repository" then repositoryRx.matches t
+  else if rx == "scope" then t == Spec.wildcard || validScopeFormat t
+  else false
+
+def insertKV (kv : KV) : List KV → List KV
+  | [] => [kv]
+  | h :: t => if kv.key < h.key then kv :: h :: t else h :: insertKV kv t
+
+def sortKV : List KV → List KV
+  | [] => []
+  | h :: t => insertKV h (sortKV t)
+
+def enfObs (e : Enf) : List KV := sortKV (e.map fun p => { key := p.1, val := p.2 })
+
+def levelsOf (d : Doc) : List (List KV) :=
+  d.statements.map fun s =>
+    match effective s.level s.override with
+    | .ok lv => enfObs lv.2
+    | .error _ => []
+
+def run (i : Input) : Obs :=
+  match kindOf i.kind with
+  | some k =>
+    let ok := isOk (validate k i.doc)
+    { okStruct := ok, okJson := ok, okVerifier := ok, levels := if ok then levelsOf i.doc else [] }
+  | none =>
+    let m := recognise i.rx i.text
+    { okStruct := m, okJson := m, okVerifier := m, levels := [] }
+
+/-- the enforcement map says integrity = enforce (and nothing else about integrity) -/
+def enforcesIntegrity (e : List KV) : Bool :=
+  e.any (fun kv => kv.key == Facts.typeIntegrity && kv.val == Facts.actionEnforce) &&
+  e.all (fun kv => kv.key != Facts.typeIntegrity || kv.val == Facts.actionEnforce)
+
+/-- the property over observables -/
+def clauses (i : Input) (o : Obs) : Clauses :=
+  match kindOf i.kind with
+  | some k =>
+    let wf := decide (WellFormed k i.doc)
+    [ ("struct_document_accepted_iff_wellformed", o.okStruct == wf),
+      ("json_document_accepted_iff_wellformed", o.okJson == wf),
+      ("verifier_construction_accepts_iff_wellformed", o.okVerifier == wf),
+      ("accepted_statement_enforces_integrity_unless_skip",
+        !o.okStruct ||
+          (o.levels.length == i.doc.statements.length &&
+            (i.doc.statements.zip o.levels).all fun p =>
+              p.1.level == Facts.levelSkipName || enforcesIntegrity p.2)) ]
+  | none =>
+    [ ("recogniser_agrees_with_go", o.okStruct == recognise i.rx i.text) ]
+
+def Holds (i : Input) (o : Obs) : Bool := (clauses i o).holds
+
+def judge := judgeWith run clauses
 
 end NotationModel.C09
